@@ -158,6 +158,7 @@ Fixpoint ok_script (c : ccase) (sg : single) (tr : list (dop * dres * list (N * 
       let '(sg', _) := sstep sg o in
       (match o, r with
        | OpenW _ _ keys _, DOk => forallb (fun k => memb k (cc_chans c)) keys
+       | OpenCut _ _ _ keys _, DOk => forallb (fun k => memb k (cc_chans c)) keys
        | CommitW id, DAck =>
            match sg_writers sg !! id with
            | Some w => forallb (fun k => negb (memb k (cc_persist c)) ||
